@@ -699,6 +699,7 @@ package types
 //@   loop 1 invariant forall j int :: {coinsB[j]} 0 <= j && j < indexB ==> (exists k int :: {k == len(sum) - 1} 0 <= k && k < len(sum) && sum[k].Denom == coinsB[j].Denom) || amtA(coinsB[j].Denom) + amtB(coinsB[j].Denom) == 0
 //@   ensures [sorted] forall k int, l int :: {r[k], r[l]} 0 <= k && k < l && l < len(r) ==> str_lt(r[k].Denom, r[l].Denom)
 //@   ensures [amounts] forall k int :: {r[k]} 0 <= k && k < len(r) ==> r[k].Amount.i != nil && val(r[k].Amount) == amtA(r[k].Denom) + amtB(r[k].Denom) && val(r[k].Amount) != 0
+//@   ensures [positive] (forall i int :: {coins[i]} 0 <= i && i < len(coins) ==> val(coins[i].Amount) > 0) && (forall i int :: {coinsB[i]} 0 <= i && i < len(coinsB) ==> val(coinsB[i].Amount) > 0) ==> (forall k int :: {r[k]} 0 <= k && k < len(r) ==> val(r[k].Amount) > 0)
 //@   ensures [completeA] forall i int :: {coins[i]} 0 <= i && i < len(coins) ==> (exists k int :: {k == len(r) - (len(coins) - i)} 0 <= k && k < len(r) && r[k].Denom == coins[i].Denom) || amtA(coins[i].Denom) + amtB(coins[i].Denom) == 0
 //@   ensures [completeB] forall j int :: {coinsB[j]} 0 <= j && j < len(coinsB) ==> (exists k int :: {k == len(r) - (len(coinsB) - j)} 0 <= k && k < len(r) && r[k].Denom == coinsB[j].Denom) || amtA(coinsB[j].Denom) + amtB(coinsB[j].Denom) == 0
 
